@@ -218,7 +218,12 @@ pub fn sample(ch: &mut Choices, re: &crate::genr::lexspec::Re, out: &mut String)
             "\\d" => '0',
             "\\s" | "\\x20" => ' ',
             "\\D" => 'b',
-            "\\u00e9" => 'é',
+            "\\u00e9" | "\\xE9" | "\\xe9" | "\\u00E9" | "\\U000000e9" => 'é',
+            "\\u6F22" | "\\u6f22" | "\\U00006F22" => '漢',
+            "\\uF900" => '\u{f900}',
+            "\\x7A" => 'z',
+            "\\xAB" => '\u{ab}',
+            "\\uffe9" => '\u{ffe9}',
             _ => return,
         }),
         Re::SlashB => {
